@@ -9,7 +9,7 @@ import numpy
 import torch
 import torch.autograd.functional as torch_autograd_functional
 
-from .base import BackendProvider, UnsupportedDtypeError, is_jagged_array
+from .base import BackendProvider, UnsupportedDtypeError, is_jagged_array, compiled_divide
 from ..autograd import AutogradChainBrokenError, NonScalarLossError, _invoke_fn
 
 # numpy 2.x moved VisibleDeprecationWarning to numpy.exceptions
@@ -1022,7 +1022,7 @@ class TorchBackendProvider(BackendProvider):
 
         param_names = list(self._collect_params(ir))
         fn_source = f"def _expr({', '.join(param_names)}): return {source}"
-        ns = {}
+        ns = {'_div': compiled_divide}
         try:
             exec(fn_source, ns)
         except Exception:
@@ -1045,7 +1045,12 @@ class TorchBackendProvider(BackendProvider):
             r = self._ir_to_source(right)
             if l is None or r is None:
                 return None
-            py_op = {'+': '+', '-': '-', '*': '*', '%': '/', '^': '**'}.get(op)
+            # A verb that is not a Python operator is emitted as a call of its helper:
+            # Divide answers :undefined for a scalar zero divisor (compiled_divide).
+            call = {'%': '_div'}.get(op)
+            if call is not None:
+                return f'{call}({l},{r})'
+            py_op = {'+': '+', '-': '-', '*': '*', '^': '**'}.get(op)
             if py_op is None:
                 return None
             return f'({l}{py_op}{r})'
